@@ -39,6 +39,8 @@ bool g_trace = false;
 std::set<std::string> g_hot;  // labels (prefixes before '/') known to crash on the pinned tree
 bool isHot(const std::string& label) {
   if (g_hot.empty()) return false;
+  for (auto& h : g_hot)  // "*<suffix>" entries match the end of the label (entry variants)
+    if (h.size() > 1 && h[0] == '*' && label.size() >= h.size() - 1 && label.compare(label.size() - (h.size() - 1), h.size() - 1, h, 1, h.size() - 1) == 0) return true;
   for (size_t p = label.find('/'); ; p = label.find('/', p + 1)) {
     if (g_hot.count(label.substr(0, p))) return true;
     if (p == std::string::npos) break;
@@ -560,6 +562,14 @@ void runMeshVariant(vh::Ctx& c, vh::Rng& r, M m, const std::string& kind, int va
   std::string detail = vh::J().s("base", baseName).s("kind", kind).s("variant", kMeshVariants[variant]).raw("mesh", meshJson(m))
                            .u("nSharpened", sharp.size()).str();
   Obs o{c, r, label, detail};
+  if (g_trace) {  // full input, for writing standalone reproducers
+    fprintf(stderr, "MESH %s base=%s numProp=%llu tol=%.17g\n", label.c_str(), baseName.c_str(), (unsigned long long)m.numProp, (double)m.tolerance);
+    auto dump = [](const char* n, const auto& v) { std::ostringstream os; os.precision(17); os << "  " << n << "={"; for (size_t i = 0; i < v.size(); i++) os << (i ? "," : "") << +v[i]; os << "}"; fprintf(stderr, "%s\n", os.str().c_str()); };
+    dump("vertProperties", m.vertProperties); dump("triVerts", m.triVerts); dump("mergeFromVert", m.mergeFromVert); dump("mergeToVert", m.mergeToVert);
+    dump("runIndex", m.runIndex); dump("runOriginalID", m.runOriginalID); dump("runTransform", m.runTransform); dump("runFlags", m.runFlags);
+    dump("faceID", m.faceID); dump("halfedgeTangent", m.halfedgeTangent);
+    for (auto& s : sharp) fprintf(stderr, "  sharp {%zu, %.17g}\n", s.halfedge, s.smoothness);
+  }
   Manifold out;
   bool ok = true;
   const int fam = variant / 2;
@@ -604,7 +614,7 @@ void meshMutant(vh::Ctx& c, vh::Rng r, std::vector<Deferred>& hot) {
     bool ok = is64 ? mutateMesh(m64, kind, rm, sharp) : mutateMesh(m32, kind, rm, sharp);
     if (!ok) continue;
     std::string lab = kind;
-    if (!isHot(meshLabel(kind)) && r.chance(0.15)) {  // stack a second, non-hot mutation
+    if (!isHot(meshLabel(kind)) && !isHot(std::string("x/") + kMeshVariants[variant]) && r.chance(0.15)) {  // stack a second, non-hot mutation
       kind2 = kMeshKinds[r.below(kNumMeshKinds)];
       if (kind2 != kind && kind2 != "none" && !isHot(meshLabel(kind2)) && kind2.rfind("sharp-", 0) != 0) {
         // the first mutation may have emptied a vector the second indexes into
@@ -1092,12 +1102,10 @@ void argMutant(vh::Ctx& c, vh::Rng r, std::vector<Deferred>& hot) {
   std::vector<double> a;
   for (auto& d : op.args) a.push_back(d.typical);
   int nSpecial = r.chance(0.8) ? 1 : (r.chance(0.7) ? 2 : 0);
-  std::string what, whatCls;
-  std::set<size_t> used;
-  for (int s = 0; s < nSpecial && used.size() < op.args.size(); s++) {
+  std::map<size_t, std::string> clsOf;  // argument index -> value class
+  for (int s = 0; s < nSpecial && clsOf.size() < op.args.size(); s++) {
     size_t i = r.below(op.args.size());
-    if (used.count(i)) continue;
-    used.insert(i);
+    if (clsOf.count(i)) continue;
     std::string cls;
     if (op.args[i].type == 'd') {
       const DSpec& d = kD[r.below(sizeof(kD) / sizeof(kD[0]))];
@@ -1108,8 +1116,25 @@ void argMutant(vh::Ctx& c, vh::Rng r, std::vector<Deferred>& hot) {
       cls = d.cls;
       a[i] = d.v;
     }
-    what += (what.empty() ? "" : "&") + std::string(op.args[i].name);
-    whatCls += (whatCls.empty() ? "" : "&") + cls;
+    clsOf[i] = cls;
+  }
+  if (clsOf.size() > 1) {
+    // a known-defect argument is never combined with another special value
+    for (auto& kv : clsOf)
+      if (isHot(std::string("arg:") + op.name + "." + op.args[kv.first].name)) {
+        std::pair<size_t, std::string> keep = kv;
+        for (auto& o : clsOf) if (o.first != keep.first) a[o.first] = op.args[o.first].typical;
+        clsOf.clear();
+        clsOf.insert(keep);
+        break;
+      }
+  }
+  std::string what, whatCls;
+  std::set<size_t> used;
+  for (auto& kv : clsOf) {
+    used.insert(kv.first);
+    what += (what.empty() ? "" : "&") + std::string(op.args[kv.first].name);
+    whatCls += (whatCls.empty() ? "" : "&") + kv.second;
   }
   if (what.empty()) { what = "all"; whatCls = "typical"; }
   // "arg:<Op>.<arg>/<class>": the head names the argument, the tail the value class
@@ -1128,7 +1153,9 @@ void argMutant(vh::Ctx& c, vh::Rng r, std::vector<Deferred>& hot) {
     c.count("arg_mutants");
     op.exec(k, a);
   };
-  if (isHot(label)) { hot.push_back({label, run}); return; }
+  bool anyHot = isHot(label);
+  for (size_t i : used) anyHot = anyHot || isHot(std::string("arg:") + op.name + "." + op.args[i].name);
+  if (anyHot) { hot.push_back({label, run}); return; }
   run();
 }
 
